@@ -532,7 +532,7 @@ fn payload_values_case<const N: usize>() {
     std::mem::forget(p);
 }
 
-// @harness name=c02_payload_values_3 props=C02,C04,C03 tier=thorough timeout=7000 rmbody=ioerr,nogrow mem=40 dead=1
+// @harness name=c02_payload_values_3 props=C02,C04,C03 tier=manual timeout=7000 rmbody=ioerr,nogrow mem=40 dead=1
 // @bound State::Values with any accumulated set; 24-byte buffer, fixed geometry with exactly 3 raw bytes (symbolic contents), payload_rem 1..65535 (shorter bodies via payload_rem); parse_name / write_response replaced by the E5 models; E8
 // @functions stream::Parser::parse_payload, NVIter<&[u8]>::next, parser::parse_nv_var
 #[kani::proof]
@@ -552,7 +552,7 @@ fn c02_payload_values_3() { payload_values_case::<3>(); }
 #[kani::stub(fcgi::ProtocolVariables::write_response, crate::verif_kani::write_response_model)]
 fn c02_payload_values_2() { payload_values_case::<2>(); }
 
-// @harness name=c02_payload_values_4 props=C02,C04,C03 tier=thorough timeout=7000 rmbody=ioerr,nogrow mem=40 dead=1
+// @harness name=c02_payload_values_4 props=C02,C04,C03 tier=manual timeout=7000 rmbody=ioerr,nogrow mem=40 dead=1
 // @bound State::Values with any accumulated set; 24-byte buffer, fixed geometry with exactly 4 raw bytes (symbolic contents), payload_rem 1..65535 (shorter bodies via payload_rem); parse_name / write_response replaced by the E5 models; E8
 // @functions stream::Parser::parse_payload, NVIter<&[u8]>::next, parser::parse_nv_var
 #[kani::proof]
@@ -562,7 +562,7 @@ fn c02_payload_values_2() { payload_values_case::<2>(); }
 #[kani::stub(fcgi::ProtocolVariables::write_response, crate::verif_kani::write_response_model)]
 fn c02_payload_values_4() { payload_values_case::<4>(); }
 
-// @harness name=c02_payload_values_6 props=C02,C04,C03 tier=thorough timeout=7000 rmbody=ioerr,nogrow mem=20 dead=1
+// @harness name=c02_payload_values_6 props=C02,C04,C03 tier=manual timeout=7000 rmbody=ioerr,nogrow mem=20 dead=1
 // @bound State::Values with any accumulated set; 24-byte buffer, fixed geometry with exactly 6 raw bytes (symbolic contents), payload_rem 1..65535 (shorter bodies via payload_rem); parse_name / write_response replaced by the E5 models; E8
 // @functions stream::Parser::parse_payload, NVIter<&[u8]>::next, parser::parse_nv_var
 #[kani::proof]
